@@ -14,7 +14,7 @@ RULE = ('Hypothesis draws the state dimension d (1..4), snapshot count m (1..8, 
         'number of modes p (1..4) with 1..4 basis functions each, mixed over all differentiable families (constant, identity, '
         'monomial, Legendre, sin, cos, Gauss, periodic Gauss) with random parameters and coordinates; scalar function lists '
         'and add_one for the coordinate-/function-major variants; every admissible single_core index; a second data set for '
-        'the Gram matrix; HOCUR with ranks >= m (hence >= the true ranks), repeats 1..3, multiplier 2..10. Oracle: the explicit '
+        'the Gram matrix (independent arrays, the same array twice, and overlapping lagged views of one trajectory); HOCUR with ranks >= m (hence >= the true ranks), repeats 1..3, multiplier 2..10. Oracle: the explicit '
         'loop Psi[i_1..i_p, j] = prod_k phi_k^{i_k}(x_j). Non-trivial: m = 1, a mode with a single function, mixed families, '
         'duplicated snapshots, add_one = False, or d = 1.')
 ASSUMPTIONS = [
@@ -113,7 +113,7 @@ def general_case(draw):
     p = draw(st.integers(1, 4))
     phi = [[fn_spec(draw, d) for _ in range(draw(st.sampled_from([1, 2, 2, 3, 4])))] for _ in range(p)]
     return {'d': d, 'm': m, 'phi': phi, 'seed': draw(gen.SEED), 'seed2': draw(gen.SEED), 'm2': draw(st.integers(1, 6)),
-            'duplicate': draw(st.sampled_from([False, False, True]))}
+            'duplicate': draw(st.sampled_from([False, False, True])), 'lag': draw(st.sampled_from([0, 1, 1, 2, 3]))}
 
 
 def general_labels(case):
@@ -130,6 +130,8 @@ def general_labels(case):
         lab.add('duplicated_snapshot')
     if len(case['phi']) == 1:
         lab.add('p1')
+    if case.get('lag') and case['m'] >= 2:
+        lab.add('lagged_views')
     return lab
 
 
@@ -149,8 +151,19 @@ def body_general(case):
         c = tdt.basis_decomposition(x.copy(), phi, single_core=k)
         require(isinstance(c, np.ndarray) and c.shape == t.cores[k].shape and np.array_equal(c, t.cores[k]), 'single_core',
                 'single_core=%d differs from the core of the full construction' % k)
-    # Gram matrix of two data sets
+    # Gram matrix of two data sets; also as two overlapping (time-lagged) views of one trajectory
     x2 = data(case, 'seed2', case['m2'])
+    if case.get('lag') and case['m'] >= 2:
+        traj = np.concatenate([x, data(case, 'seed2', case['lag'])], axis=1)
+        xa, xb = traj[:, :case['m']], traj[:, case['lag']:case['lag'] + case['m']]
+        ga = tdt.gram(xa, xb, phi)
+        va = [np.array([[ref_value(s_, xa[:, j]) for j in range(case['m'])] for s_ in f]) for f in case['phi']]
+        vb = [np.array([[ref_value(s_, xb[:, j]) for j in range(case['m'])] for s_ in f]) for f in case['phi']]
+        Ga = psi_ref(va).reshape(-1, case['m']).T @ psi_ref(vb).reshape(-1, case['m'])
+        close(np.asarray(ga), Ga, 1e-11, 1.0 + np.max(np.abs(Ga)), 'gram_value', 'gram of two lagged views of one trajectory')
+        gs = tdt.gram(x, x, phi)
+        Gs = want.reshape(-1, case['m']).T @ want.reshape(-1, case['m'])
+        close(np.asarray(gs), Gs, 1e-11, 1.0 + np.max(np.abs(Gs)), 'gram_value', 'gram(x, x)')
     g = tdt.gram(x.copy(), x2.copy(), phi)
     vals2 = [np.array([[ref_value(s, x2[:, j]) for j in range(case['m2'])] for s in f]) for f in case['phi']]
     want2 = psi_ref(vals2)
@@ -272,7 +285,7 @@ def nt(labels):
 
 
 SUBCHECKS = [
-    Sub('general', general_case(), body_general, nt, quick=400, thorough=4000, classes=['m1', 'd1', 'single_function_mode', 'mixed_families', 'duplicated_snapshot', 'p1']),
+    Sub('general', general_case(), body_general, nt, quick=400, thorough=4000, classes=['m1', 'd1', 'single_function_mode', 'mixed_families', 'duplicated_snapshot', 'p1', 'lagged_views']),
     Sub('major', major_case(), body_major, nt, quick=400, thorough=4000, classes=['m1', 'd1', 'add_one_false', 'p1', 'duplicated_snapshot']),
     Sub('hocur', hocur_case(), body_hocur, nt, quick=300, thorough=3000, shards_quick=4,
         classes=['m1', 'single_function_mode', 'mixed_families', 'duplicated_snapshot', 'repeats1', 'repeats3']),
